@@ -46,7 +46,7 @@ class CycleNode(Node):
         self.blank = False
 
     def __str__(self) -> str:
-        name = f"{self.group.token.value}: " if self.group else ""
+        name = f"{self.group}: " if self.group else ""
         items = ", ".join(str(i) for i in self.args)
         return f"{{% cycle {name}{items} %}}"
 
